@@ -249,6 +249,16 @@ def run(ctx):
         ax = abs(core.sf(x)) or 1.0
         return rng.choice([0, ax * 1e-6, ax * 0.01, ax * 0.3, ax * 2.5, 0.5])
 
+    if ctx.shard == 0:
+        # deterministic witness of the known finding (mixed SI/IEC prefix: the root of sigma**2 is refused)
+        try:
+            P = m.Prefix._by_name
+            u = P["kibi"] * (P["kilo"] * m.Unit._by_name["bit"])
+            state["case"] = {"witness": "Measurement(1*(Kibi*(Kilo*Bit)), 0.1) + Measurement(2*(Kibi*(Kilo*Bit)), 0.1)"}
+            Mt(Q(1.0, u), 0.1) + Mt(Q(2.0, u), 0.1)
+        except Exception:
+            pass
+        ctx.count("witnesses_rerun")
     n = ctx.scale(40000, 1_000_000) // 2
     ops = [("add", operator.add), ("sub", operator.sub), ("mul", operator.mul), ("truediv", operator.truediv), ("pow", None)]
     for i in range(n):
@@ -356,6 +366,9 @@ def run(ctx):
             if abs(va - vb) > ref * (TOL * deg + Fraction(1, 10**7)) + wa + wb + w_operands:
                 ctx.violation(f"C14:{opname}:result-depends-on-operand-unit:{what}",
                               f"{left!r} {opname} {right!r} vs re-expressed {right2!r}: SI {what} {core.sf(va)!r} vs {core.sf(vb)!r}", state["case"])
+    for e in ctx.known:
+        if e.get("status") == "known":
+            ctx.witness(e["key"], ctx.known_hits.get(e["key"], 0) > 0)
     ctx.require("uncertainties_checked/__mul__", 50)
     ctx.require("uncertainties_checked/__add__", 50)
     ctx.require("uncertainties_checked/__pow__", 50)
